@@ -1103,7 +1103,8 @@ theorem singleVia_ok {c : Config α} {g : List α}
     ∃ fres tsp,
       runVertexOriented c.fwd.inst source (some target) fs = .ok fres ∧
       backtrack source target fres.final.sol (fres.final.solSize + 1) = .ok tsp ∧
-      (((∃ e, runVertexOriented (c.rev g).inst target (some source) rs = .error e) ∧
+      (((∃ e, runVertexOriented (c.rev g).inst target (some source) rs = .error e ∧
+            e.stopsQuery = false) ∧
           r = { trees := [fres.final.sol], routes := [tsp].take k,
                 iterations := fres.final.iters }) ∨
        ∃ rres sol it,
@@ -1121,9 +1122,12 @@ theorem singleVia_ok {c : Config α} {g : List α}
     · rename_i e hrres
       split at h
       · cases h
-      · rename_i tsp htsp
-        cases h
-        exact ⟨fres, tsp, hfres, htsp, Or.inl ⟨⟨e, hrres⟩, rfl⟩⟩
+      · rename_i hstop
+        split at h
+        · cases h
+        · rename_i tsp htsp
+          cases h
+          exact ⟨fres, tsp, hfres, htsp, Or.inl ⟨⟨e, hrres, by simpa using hstop⟩, rfl⟩⟩
     · rename_i rres hrres
       simp only [List.length_singleton, bne_self_eq_false, Bool.false_eq_true, if_false] at h
       split at h
@@ -1287,6 +1291,7 @@ theorem singleVia_error {c : Config α} {g : List α} (hf : c.fwd.AdjConsistent)
     {term : KspTerm} {source target k : Nat} (hts : target ≠ source) {fs rs pops : List Nat}
     {e : ErrKind} (h : singleVia c g sim term source target k fs rs pops = .error e) :
     runVertexOriented c.fwd.inst source (some target) fs = .error e ∨
+    (runVertexOriented (c.rev g).inst target (some source) rs = .error e ∧ e.stopsQuery = true) ∨
     e = .scheduleExhausted ∨ e = .badSchedule ∨ (∃ a b, sim a b = .error e) := by
   unfold singleVia at h
   simp only at h
@@ -1297,8 +1302,13 @@ theorem singleVia_error {c : Config α} {g : List α} (hf : c.fwd.AdjConsistent)
       SearchTree.runVertexOriented_route (c.fwd.inst_wf hf) source target fs fres hts hfres
     obtain ⟨tsp, _, htsp⟩ := SearchTree.backtrack_ok hinvF (t := target) (Or.inr hent)
     split at h
-    · rw [htsp] at h
-      cases h
+    · rename_i e' hrres
+      split at h
+      · rename_i hstop
+        cases h
+        exact Or.inr (Or.inl ⟨hrres, hstop⟩)
+      · rw [htsp] at h
+        cases h
     · rename_i rres hrres
       have T := trees_of_runs c g hf hr hts hfres hrres
       simp only [List.length_singleton, bne_self_eq_false, Bool.false_eq_true, if_false] at h
@@ -1307,7 +1317,7 @@ theorem singleVia_error {c : Config α} {g : List α} (hf : c.fwd.AdjConsistent)
       split at h
       · rename_i k' hk'
         cases h
-        exact Or.inr (svLoop_error T _ _ _ _ _ (fun p hp => mem_interQueue hp) hk')
+        exact Or.inr (Or.inr (svLoop_error T _ _ _ _ _ (fun p hp => mem_interQueue hp) hk'))
       · cases h
 
 /-! ### Yen's algorithm: what does hold -/
